@@ -484,7 +484,10 @@ def _create_sbml_variables(
 
         cpd.setConstant(False)
         cpd.setBoundaryCondition(False)
-        cpd.setHasOnlySubstanceUnits(False)
+        # A variable of the model is a plain quantity whose derivative is the sum of
+        # stoichiometry * rate. That is an SBML amount: written as a concentration it
+        # would be divided by the size of the compartment.
+        cpd.setHasOnlySubstanceUnits(True)
         cpd.setCompartment("compartment")
         # cpd.setUnit() # FIXME: implement
         if isinstance((init := variable.initial_value), InitialAssignment):
@@ -494,7 +497,7 @@ def _create_sbml_variables(
             ar.setSymbol(_convert_id_to_sbml(id_=name, prefix="IA"))
             ar.setMath(_sbmlify_fn(init.fn, init.args))
         else:
-            cpd.setInitialConcentration(float(init))
+            cpd.setInitialAmount(float(init))
 
 
 def _create_sbml_derived_variables(*, model: Model, sbml_model: libsbml.Model) -> None:
